@@ -76,12 +76,32 @@ OTHER_VARIANTS = [
     dict(VARIANT, name='chezy-manning', hyd=dict(headloss='C-M')),
     dict(VARIANT, name='defaults-not-written', hyd=dict(demand_model='DDA'), hyd_after=dict(headerror=0, flowchange=0, damplimit=0), speed=1.0),
     dict(VARIANT, name='gpv', gpv=True),
+    dict(VARIANT, name='reaction-orders-2-0-0', orders=(2, 0, 0)),
+    dict(VARIANT, name='reaction-orders-1-0-2', orders=(1, 0, 2)),
+    dict(VARIANT, name='reaction-orders-0-1-1', orders=(0, 1, 1)),
     dict(VARIANT, name='no-quality', quality=False, vertices=False),
     dict(VARIANT, name='or-of-and', or_of_and=True),
 ]
 
 
+_DYN = {}
+
+
+def set_reaction_tolerance(units, orders):
+    """[REACTIONS] entries are written with 4 decimals IN FILE UNITS; what that is in SI depends on the unit system and the reaction order
+    (the factors themselves are the subject of C17)"""
+    from wntr.epanet.util import to_si, QualParam, MassUnits, FlowUnits
+    fu = FlowUnits[units]
+    bulk_order, wall_order, tank_order = orders
+    _DYN['bulk'] = abs(float(to_si(fu, 1e-4, QualParam.BulkReactionCoeff, mass_units=MassUnits.mg, reaction_order=int(bulk_order)))) + 1e-12
+    _DYN['wall'] = abs(float(to_si(fu, 1e-4, QualParam.WallReactionCoeff, mass_units=MassUnits.mg, reaction_order=int(wall_order)))) + 1e-12
+
+
 def tol_of(path):
+    if _DYN and re.match(r'/((nodes|links)/[^/]+|options/reaction)/bulk_coeff', path):
+        return (0.0, _DYN['bulk'])
+    if _DYN and re.match(r'/((nodes|links)/[^/]+|options/reaction)/wall_coeff', path):
+        return (0.0, _DYN['wall'])
     for pat, t in TOL:
         if re.match(pat, path):
             return t
@@ -286,6 +306,7 @@ def cycle(wn, units, version, d):
 
 def check_units(rep, units, version, var):
     tag = '%s/%s/%s' % (var['name'], units, version)
+    set_reaction_tolerance(units, var.get('orders', (1, 1, 1)))
     undo = [symx.install_shims(m, names) for m, names in MODS]
     d = tempfile.mkdtemp(prefix='vf12.', dir='/var/tmp')
     try:
@@ -533,6 +554,7 @@ class _Lenient(dict):
 def replay_inp(i):
     """plain floats, the real writer and reader"""
     var, units, version = i['var'], i['units'], i['version']
+    set_reaction_tolerance(units, var.get('orders', (1, 1, 1)))
     vals = {k: v for k, v in i.items() if k not in ('var', 'units', 'version', 'what', 'why')}
     d = tempfile.mkdtemp(prefix='vf12r.', dir='/var/tmp')
     try:
